@@ -53,6 +53,7 @@ Boot(i) == [ st      |-> InitSt,             \* the session (after the prelude)
              failed  |-> FALSE,              \* run() is going to return Err
              exited  |-> FALSE,
              status  |-> 0,                  \* exit status (meaningful once exited)
+             dropped |-> << >>,              \* prints of a failing input, thrown away with it (adopted rule, not C22)
              log     |-> << >> ]             \* what happened to each executed input (coverage only)
 
 \* what parse_and_evaluate prints for a successful input: prints first, then the result
@@ -68,7 +69,8 @@ RunInput(q) ==
     IF r.outcome = "ok"
     THEN [q EXCEPT !.st = r.st, !.queue = Tail(@), !.stdout = @ \o Emitted(r), !.log = Append(@, LogRec(inp, r))]
     ELSE \* the prints collected so far (r.out) are dropped together with the input
-         [q EXCEPT !.st = r.st, !.queue = Tail(@), !.stderr = TRUE, !.failed = TRUE, !.log = Append(@, LogRec(inp, r))]
+         [q EXCEPT !.st = r.st, !.queue = Tail(@), !.stderr = TRUE, !.failed = TRUE, !.dropped = @ \o r.out,
+                   !.log = Append(@, LogRec(inp, r))]
 
 CanExit(q) == ~q.exited /\ ~CanRun(q)
 \* main(): Err(e) => writeln!(stderr, ..); exit(1)
